@@ -17,6 +17,7 @@ Next ==
   \/ ncalls = 0 /\ New(1)
   \/ ncalls = 1 /\ \E o \in Fail : StartError(o) # 0 /\ ~(o.input > 0 /\ o.prog # "/bin/c") /\ Start(1, o)   \* (one cause at a time)
   \/ ncalls = 2 /\ \E o \in Ok : Start(1, o)
+  \/ ncalls = 2 /\ Destroy(1)          \* ... or destroyed as it is: nothing of the failed attempt is left to release twice
   \/ ncalls >= 3 /\ life[1] = "run" /\
        \/ \E t \in {0, INF} : Poll(<<<<1, EV_EXIT + EV_OUT>>>>, t)
        \/ Wait(1, DEADLINE)
